@@ -23,14 +23,17 @@ Notation "x <- a ;; b" := (match a with Some x => b | None => None end)
 Notation "'assert' c ;; b" := (if c then b else None) (at level 61, c at next level, right associativity).
 
 (* ---- list utilities ---- *)
-Definition nthN {A} (l : list A) (i : N) : option A := nth_error l (N.to_nat i).
+(* the bound test keeps evaluation cheap for hostile indices (N.to_nat of 2^30 would build a huge unary number) *)
+Definition nthN {A} (l : list A) (i : N) : option A :=
+  if i <? N.of_nat (length l) then nth_error l (N.to_nat i) else None.
 Fixpoint upd_nat {A} (l : list A) (i : nat) (f : A -> A) : list A :=
   match l, i with
   | [], _ => []
   | x :: l', O => f x :: l'
   | x :: l', S i' => x :: upd_nat l' i' f
   end.
-Definition updN {A} (l : list A) (i : N) (f : A -> A) : list A := upd_nat l (N.to_nat i) f.
+Definition updN {A} (l : list A) (i : N) (f : A -> A) : list A :=
+  if i <? N.of_nat (length l) then upd_nat l (N.to_nat i) f else l.
 Definition setN {A} (l : list A) (i : N) (x : A) : list A := updN l i (fun _ => x).
 Definition sumN (l : list N) : N := fold_left N.add l 0.
 Fixpoint seqN (start : N) (len : nat) : list N :=
